@@ -15,6 +15,7 @@ import tempfile
 from ..runner import Result
 from ..explore import BFS
 
+TWO_HASH_SEEDS = ('quick', 'thorough')   # tiers in which the space is walked under a second PYTHONHASHSEED
 LEVEL = 'model_checking'
 R1 = (200.0, 1000.0)
 R2 = (150.0, 1200.0)
